@@ -180,35 +180,37 @@ def r3(ctx):
     if len(acc) != 1:
         raise mir.AnchorMissing("BobState::run: accept callback call not found (%d)" % len(acc))
     AO = [v["name"] for v in f.adt("net::AcceptOutcome")["variants"]]
-    sw = []
-    for bi, blk in enumerate(run.blocks):
-        t = blk["t"]
-        if t["k"] == "switch" and t["d"][0] in ("copy", "move") and not mir.is_noise(t["x"]):
-            defs = run.defs().get(t["d"][1]["l"], [])
-            if len(defs) == 1 and defs[0][2] == "assign" and defs[0][3]["r"][0] == "discr" and run.locals[defs[0][3]["r"][1]["l"]]["ty"] == "net::AcceptOutcome":
-                sw.append((bi, t))
-    if len(sw) != 1:
-        raise mir.AnchorMissing("BobState::run: match on AcceptOutcome not found (%d)" % len(sw))
-    sbi, st = sw[0]
-    edges = {AO[v]: (sbi, tb) for v, tb in st["v"]}
-    if "Reject" not in edges or "Allow" not in edges:
-        raise mir.AnchorMissing("AcceptOutcome switch lacks Allow/Reject arms")
-    rej = edges["Reject"]
-    region = run.reach_from_edges([rej[1]])
+    from .common import variant_edges, dominated_by_any
+    acc_bi = acc[0][0]
+    rej_es = [e for e in variant_edges(run, lambda ty: ty == "net::AcceptOutcome", AO.index("Reject")) if run.dominates(acc_bi, e[0])]
+    al_es = [e for e in variant_edges(run, lambda ty: ty == "net::AcceptOutcome", AO.index("Allow")) if run.dominates(acc_bi, e[0])]
+    if not rej_es or not al_es:
+        raise mir.AnchorMissing("BobState::run: the accept outcome is not tested for Allow/Reject")
+    st = run.blocks[rej_es[0][0]]["t"]
+    rej = rej_es[0]
+    al = al_es[0]
+    region = run.reach_from_edges([e[1] for e in rej_es])
     # on the reject edge: an Abort message is sent, no SyncHandle method is called, and the function returns Err
-    handle_calls = [t["f"].get("name") for bi, t in run.calls() if bi in region and run.edge_dominates(rej[0], rej[1], bi) and callee_matches(t, r"actor::SyncHandle::")]
-    aborts = [s for bi, si, s in run.statements() if s["k"] == "assign" and s["r"][0] == "agg" and s["r"][1][0] == "adt" and s["r"][1][1] == "net::codec::Message" and s["r"][1][2] == "Abort" and run.edge_dominates(rej[0], rej[1], bi)]
+    handle_calls = [t["f"].get("name") for bi, t in run.calls() if bi in region and dominated_by_any(run, rej_es, bi) and callee_matches(t, r"actor::SyncHandle::")]
+    aborts = [s for bi, si, s in run.statements() if s["k"] == "assign" and s["r"][0] == "agg" and s["r"][1][0] == "adt" and s["r"][1][1] == "net::codec::Message" and s["r"][1][2] == "Abort" and dominated_by_any(run, rej_es, bi)]
     ctx.check(not handle_calls and len(aborts) == 1, "C10.R3", RUN, "declined-request-touches-nothing",
               "on the Reject edge: store-handle calls %s, Abort frames built %d" % (handle_calls, len(aborts)), st["sp"])
     # every sync_process_message call is dominated by Allow (Init arm) or happens in the (Sync, Some) arm
     spm = [(bi, t) for bi, t in run.calls() if t["f"].get("name") == "sync_process_message"]
-    al = edges["Allow"]
-    n_allow = sum(1 for bi, t in spm if run.edge_dominates(al[0], al[1], bi))
+    # "after Allow" = dominated by an Allow edge, or dominated by the accept test and not reachable
+    # from the Reject edge without leaving the function (the reject arm returns)
+    rej_returns = not any(run.blocks[x]["t"]["k"] != "return" and bi2 in region for bi2, t2 in spm for x in [bi2])
+
+    def after_allow(bi2):
+        if dominated_by_any(run, al_es, bi2):
+            return True
+        return run.dominates(acc_bi, bi2) and bi2 not in region
+    n_allow = sum(1 for bi, t in spm if after_allow(bi))
     ctx.check(n_allow == 1, "C10.R3", RUN, "init-processed-only-after-Allow", "%d of %d process calls are dominated by the Allow edge (the Init arm's)" % (n_allow, len(spm)), spm[0][1]["sp"])
     # namespace is set only after Allow
     sets = [bi for bi, si, s in run.statements() if s["k"] == "assign" and s["p"]["p"] and s["p"]["p"][-1][0] == "field" and s["p"]["p"][-1][2] == "namespace" and "BobState" in str(run.locals[s["p"]["l"]]["ty"]) or
             (s["k"] == "assign" and s["p"]["p"] and s["p"]["p"][-1][0] == "field" and s["p"]["p"][-1][2] == "namespace" and s["r"][0] == "agg" and s["r"][1][2] == "Some")]
-    ok = bool(sets) and all(run.edge_dominates(al[0], al[1], bi) for bi in sets)
+    ok = bool(sets) and all(after_allow(bi) for bi in sets)
     ctx.check(ok, "C10.R3", RUN, "namespace-set-only-after-Allow", "%d assignments to self.namespace, all dominated by the Allow edge" % len(sets), run.sp)
     ctx.floor("C10.R3", 3)
 
